@@ -438,6 +438,58 @@ def r16_8(run):
                    message='the set of names to remove is not filled under "value is None"')
 
 
+def r16_10(run):
+    """the nickname index holds None for an ambiguous nickname until the end-of-document pass removes it - and that pass does not
+    run after the initial ns/all listing, so placeholders can be live in self.routers (and in whatever aliases it) at any time.
+    Contradiction rule: one walk over the index tests "is None"; every other walk over it (or an alias) that dereferences the
+    entry must do the same, or the AttributeError aborts the replacement and the stale view stays"""
+    ts = TS(run)
+    units = [m for m in ts.methods.values()]
+    holders = set()
+    for u in units:
+        for n in walk_unit(u):
+            if isinstance(n, ast.Assign) and isinstance(n.targets[0], ast.Subscript) and is_none(n.value) and (dotted(n.targets[0].value) or '').startswith('self.'):
+                holders.add(dotted(n.targets[0].value))
+    if not holders:
+        raise AnchorVanished('None placeholder store into a TorState index')
+    changed = True
+    while changed:
+        changed = False
+        for u in units:
+            for n in walk_unit(u):
+                if isinstance(n, ast.Assign) and dotted(n.value) in holders:
+                    for t in n.targets:
+                        if (dotted(t) or '').startswith('self.') and dotted(t) not in holders:
+                            holders.add(dotted(t))
+                            changed = True
+    k = checked = 0
+    for u in units:
+        g = None
+        for lp in [n for n in walk_unit(u) if isinstance(n, ast.For)]:
+            it = lp.iter
+            v = None
+            if isinstance(it, ast.Call) and callee_attr(it) == 'values' and dotted(receiver(it)) in holders and isinstance(lp.target, ast.Name):
+                v = lp.target.id
+            elif isinstance(it, ast.Call) and callee_attr(it) == 'items' and dotted(receiver(it)) in holders and isinstance(lp.target, (ast.Tuple, ast.List)) \
+                    and len(lp.target.elts) == 2 and isinstance(lp.target.elts[1], ast.Name):
+                v = lp.target.elts[1].id
+            if v is None:
+                continue
+            k += 1
+            g = g or cfg_of(u)
+            for x in [x for b in lp.body for x in ast.walk(b) if isinstance(x, ast.Attribute) and isinstance(x.value, ast.Name) and x.value.id == v]:
+                for n in g.nodes_containing(x):
+                    checked += 1
+                    gd = g.guarded_by(n, lambda t: (isinstance(t, ast.Compare) and dotted(t.left) == v and len(t.ops) == 1 and is_none(t.comparators[0])) or dotted(t) == v)
+                    ok = any((isinstance(t.ast, ast.Compare) and ((lab == 'F') == isinstance(t.ast.ops[0], (ast.Is, ast.Eq)))) or (not isinstance(t.ast, ast.Compare) and lab == 'T')
+                             for t, lab in gd)
+                    run.ob('R16.10', u, x, 'an entry of the nickname index is dereferenced only after a None test', ok, slot='placeholder-deref@%s' % u.name,
+                           message='%s walks %s and uses %s without testing it for None: an ambiguous nickname left by the initial listing makes the walk raise '
+                                   'AttributeError, the event dispatcher swallows it and the replacement consensus is dropped' % (u.name, src(it), src(x)))
+    run.floor('R16.10', 'walks over the nickname index (or an alias)', k, 1)
+    run.ob('R16.10', units[0], ts.node, 'indexes that may hold the None placeholder: %s; %d walks, %d dereferences' % (sorted(holders), k, checked), True)
+
+
 def r16_6(run):
     k = dropped_deferreds(run, 'R16.6', [TU(run, '_bootstrap')], 'the state bootstrap')
     run.floor('R16.6', 'suspension points in TorState._bootstrap', k, 4)
@@ -458,6 +510,7 @@ RULES = [
     ('R16.2', 'reuse hygiene: every Router attribute written conditionally or cumulatively is reset unconditionally (objects are re-used across documents)', r16_2),
     ('R16.3', 'FSM table x line classes against dir-spec 3.4.1 order r a* s [w] [p] (first-match, matcher ASTs interpreted on class representatives)', r16_3),
     ('R16.8', 'line handlers take data.split()[1:]; ambiguous nicknames deleted after the document', r16_8),
+    ('R16.10', 'contradiction rule: the nickname index may hold None placeholders (one walk tests for it); every walk over it or an alias dereferences entries only after a None test', r16_10),
     ('R16.4', 'identity codec pair composed of mutually inverse primitives', r16_4),
     ('R16.5', 'guards/authorities keyed on the lower-cased flags; nickname index blanks duplicates; identity always indexed', r16_5),
 ]
@@ -465,6 +518,7 @@ RULES = [
 from ..selftest import M  # noqa: E402
 FT, FP, FR = 'txtorcon/torstate.py', 'txtorcon/_microdesc_parser.py', 'txtorcon/router.py'
 MUTANTS = [
+    M('old-routers-walk-derefs-placeholder', 'txtorcon/torstate.py', "            self._old_routers = self.routers\n", "            self._old_routers = self.routers\n            for router in self._old_routers.values():\n                router.from_consensus = False\n", ['R16.10']),
     M('ok-line-cut-from-events-too', 'txtorcon/torcontrolprotocol.py', ["        self.response = ''\n        if self.code is None:", "            if resp.endswith('\\nOK'):\n                resp = resp[:-3]\n            self.defer.callback(resp)"], ["        self.response = ''\n        if resp.endswith('\\nOK'):\n            resp = resp[:-3]\n        if self.code is None:", "            self.defer.callback(resp)"], ['R16.9/R02.1']),
     M('guards-need-running-too', 'txtorcon/torstate.py', "        if 'guard' in router.flags:\n", "        if 'guard' in router.flags and 'running' in router.flags:\n", ['R16.5']),
     M('authority-dropped-with-dup-nick', FT, "        for k in remove_keys:\n            del self.routers[k]\n", "        for k in remove_keys:\n            del self.routers[k]\n            self.authorities.pop(k, None)\n", ['R16.5']),
